@@ -243,9 +243,7 @@ def mode_spec(draw):
             mode.append(draw(st.sampled_from(sorted(set(ctx_avail)))))
             continue
         it = draw(st.sampled_from(avail))
-        if it in fused_members and it in mode:
-            it = "index"  # duplicates only for non-fused items
-        mode.append(it)
+        mode.append(it)  # repeats included, also of jointly loaded items (every slot of the mode is filled with the item it names)
     return {"stack": stack, "fused": fused, "mode": mode, "return_ctx": draw(st.booleans()),
             "history": draw(st.lists(access(), min_size=1, max_size=8))}
 
@@ -260,6 +258,17 @@ def enumerate_perms(tier):
                     yield {"stack": {"t": "root", "id": 1, "n": n, "C": 3, "lay": 0, "bulk": "list"},
                            "fused": {"groups": layout}, "mode": list(perm), "return_ctx": (len(perm) + n) % 2 == 0,
                            "history": [["int", n - 1], ["int", -1], ["slice", None, None, 2]]}
+
+
+def enumerate_repeats(tier):
+    """modes that name a whole jointly loaded group twice (and orders around it)"""
+    for layout in FUSED_LAYOUTS:
+        g = layout[0]
+        for mode in (g + g, g + ["index"] + g[::-1], g[::-1] + g, g + g[:1], g[:1] + g, g + ["index"] + g, ["index"] + g + g + ["aux2"]):
+            for n in (3, 5):
+                yield {"stack": {"t": "root", "id": 1, "n": n, "C": 3, "lay": 0, "bulk": "list"},
+                       "fused": {"groups": layout}, "mode": list(mode), "return_ctx": (len(mode) + n) % 2 == 0,
+                       "history": [["int", n - 1], ["int", -1], ["slice", None, None, 2]]}
 
 
 # ---- TorchWrapper
@@ -407,6 +416,8 @@ FACETS = [
           min_nontrivial={"quick": 600, "thorough": 6000}),
     Facet("fused-permutations", guarded("modes", check), enumerate=enumerate_perms, exhaustive=True, shards={"quick": 4, "thorough": 8},
           min_nontrivial={"quick": 300, "thorough": 600}),
+    Facet("fused-repeats", guarded("modes", check), enumerate=enumerate_repeats, exhaustive=True, shards={"quick": 1, "thorough": 1},
+          min_nontrivial={"quick": 20, "thorough": 20}),
     Facet("torchwrapper", check_torchwrapper, strategy=lambda tier: torch_spec(),
           budget={"quick": 500, "thorough": 5000}, shards={"quick": 1, "thorough": 4}, min_nontrivial={"quick": 100, "thorough": 500}),
     Facet("shipped-fused", check_shipped_fused, strategy=lambda tier: shipped_spec(),
